@@ -126,6 +126,13 @@ def scenario_for(seed, index, tier):
     status['pong_delay_us'] = rng.choice([0, 0, 1000, 250000, 3000000])
     hs = rng.choice(['custom', 'custom', 'default', 'off'])
     hp = rng.choice(['custom', 'custom', 'default', 'off'])
+    if call == 'status' and status['mode'] == 'reply' and rng.random() < 0.4:
+        # like a real server, it closes its side as soon as it has sent its
+        # last packet of the exchange
+        if hp == 'off':
+            status['close_after_reply'] = True
+        else:
+            status['close_after_pong'] = True
     seg = rng.random() < 0.3
     single = call == 'connect' and allowed_protos is not None and \
         len(allowed_protos) == 1
